@@ -113,7 +113,20 @@ func analyse(spec *propSpec, tier, repo, goarch string) (c *Ctx, err error) {
 			}
 		}
 	}
-	c.Obls = keep
+	// one obligation per key (test variants of a package repeat its functions): keep the worst
+	byKey := map[string]*Obligation{}
+	var uniq []*Obligation
+	for _, o := range keep {
+		if p, ok := byKey[o.Key()]; ok {
+			if p.Status == Discharged && o.Status != Discharged {
+				*p = *o
+			}
+			continue
+		}
+		byKey[o.Key()] = o
+		uniq = append(uniq, o)
+	}
+	c.Obls = uniq
 	sortObls(c, c.Obls)
 	return c, nil
 }
@@ -290,6 +303,17 @@ func runProperty(id, tier, repo, verif string, writeEvidence, list bool, only *r
 		}
 	}
 
+	var seedRes []seedResult
+	if tier == "thorough" && only == nil && repo == "/repo" || os.Getenv("ODB_SEEDED") == "1" {
+		var lost int
+		seedRes, lost = seededReplay(spec, repo, verif)
+		fmt.Print(fmtSeedResults(seedRes))
+		if lost > 0 {
+			nViol++
+			emitViolation(&Obligation{Rule: "seeded-replay", Construct: "sensitivity-lost", Status: Violated,
+				Detail: "kind=sensitivity-lost: a seeded change recorded as detected by this property is no longer reported"}, "")
+		}
+	}
 	if writeEvidence && only == nil {
 		var samples []interface{}
 		perRule := map[string]int{}
@@ -322,6 +346,7 @@ func runProperty(id, tier, repo, verif string, writeEvidence, list bool, only *r
 			"callgraph":          c.cgKind,
 			"targets":            passes,
 			"samples":            samples,
+			"seeded_replay":      seedRes,
 			"notes":              c.Notes,
 			"exhaustive":         true,
 			"checker_cmd":        fmt.Sprintf("bin/odbcheck -property %s -tier %s", id, tier),
